@@ -29,12 +29,12 @@ def l2_fp(extra_evt=(), extra=(), task_fns=()):
 
 
 def l2_job(name, harness, defines=None, symbolic=(), bounds="", unwind=8, timeout=900, fp=None, leak=False,
-           kf=(), unwindset=None, mem_gb=16, extra_evt=(), task_fns=()):
+           kf=(), unwindset=None, mem_gb=16, extra_evt=(), task_fns=(), fp_extra=()):
     us = dict(UNWINDSET)
     us.update({"m_mem_unref": 6})
     us.update(unwindset or {})
     return Job(name, harness, sources=WHOLE_CORE, extra_harness=["common/vf_defs.c"], model="os_model.c",
                defines=defines or {}, src_defines={"FEDEDP_LIBMODULE_VERIF_MAP_SIZE": MAP_SIZE}, cflags=CFLAGS,
-               unwind=unwind, unwindset=us, fp=fp or l2_fp(extra_evt=extra_evt, task_fns=task_fns), fsa=1024,
+               unwind=unwind, unwindset=us, fp=fp or l2_fp(extra_evt=extra_evt, task_fns=task_fns, extra=fp_extra), fsa=1024,
                object_bits=12, backend="cadical", layer="l2", symbolic=list(symbolic), bounds=bounds, timeout=timeout,
                leak=leak, kf=list(kf), mem_gb=mem_gb, noflags=["--conversion-check"], native={"sources": WHOLE_CORE})
